@@ -10,7 +10,7 @@ FN = ['script/interpreter.cpp: StepScript (OP_CHECKSIG, OP_CHECKSIGVERIFY, OP_CH
 def mk(name, opsel, n, w, k, extra, tier='quick', timeout=3000, backend=None):
     defs = ['H_SIG', f'H_OPSEL(op)=({opsel})', f'H_N={n}', f'VERIF_STACK_W={max(w, 1)}', f'VERIF_ITEM_CAP={k}', 'VERIF_SCRIPT_CAP=' + ('12' if 'VERIF_ORACLE_N=12' in extra else '24'), 'H_AN=0'] + extra
     return Query(name, 'harness', unit_step_sig, 'h_step', defines=defs, unwind=(14 if 'VERIF_ORACLE_N=12' in extra else max(k + 2, 26)), timeout=timeout, object_bits=12, tier=tier, backend=backend,
-                 bounded=f'stack element storage {k} bytes (signatures <= 73, keys <= 65 bytes fit when >= 80)', functions=FN)
+                 bounded=f'stack element storage {k} bytes (signatures <= 73, keys <= 65 bytes fit when >= 80)', functions=FN, replay=REPLAY_STEP)
 def sig_queries():
     qs = []
     # CHECKSIG / CHECKSIGVERIFY: legacy+v0 (DER, low-S, hash type, key type, NULLFAIL, FindAndDelete/CONST_SCRIPTCODE), tapscript (budget, key versions), taproot key path
@@ -25,7 +25,7 @@ def sig_queries():
     for j in range(3):
         qs.append(mk(f'sig_checksigadd_depth{j}', 'op==0xba', j, max(j, 1), 16, ['H_EXEC=1', 'H_BASE0', 'H_NO_OK', 'H_CANARY_ERR', 'H_SV=3']))
     # CHECKMULTISIG(VERIFY): case split over the number of keys / signatures (window = nk + ns + 3 items)
-    for (nk, ns, tier) in ((0, 0, 'quick'), (1, 0, 'quick'), (1, 1, 'thorough'), (2, 1, 'thorough'), (2, 2, 'thorough'), (3, 2, 'thorough'), (3, 1, 'thorough'), (3, 3, 'thorough')):
+    for (nk, ns, tier) in ((0, 0, 'quick'), (1, 0, 'quick'), (1, 1, 'quick'), (2, 1, 'thorough'), (2, 2, 'thorough'), (3, 2, 'thorough'), (3, 1, 'thorough'), (3, 3, 'thorough')):
         n = nk + ns + 3
         for op, nm in ((0xae, 'multisig'), (0xaf, 'multisigverify')):
             if nm == 'multisigverify' and (nk, ns) not in ((1, 0), (2, 1)): continue
@@ -41,7 +41,9 @@ from props import units_leaf as ULF
 def fad(n, tier):
     return Query(f'leaf_findanddelete_n{n}', 'harness', ULF.unit_decode, 'h_findanddelete', defines=['VERIF_ITEM_CAP=16', f'VERIF_SCRIPT_CAP={n}', f'H_SCRIPT_N={n}'], unwind=n + 4, timeout=3000, object_bits=10, tier=tier, backend='kissat',
                  functions=['script/interpreter.cpp: FindAndDelete'], bounded=f'all scripts of at most {n} bytes and patterns of at most 3 bytes (loop over operations: no invariant proof)')
-QUERIES = sig_queries() + [fad(4, 'quick'), fad(5, 'thorough'), fad(7, 'thorough')]
+from props import C03 as _C03
+# the tapscript signature budget the opcode contracts start from is set up in Instance::configure_tx_txin: its contract is re-run here
+QUERIES = sig_queries() + [fad(4, 'quick'), fad(5, 'thorough'), fad(7, 'thorough'), _C03.CFG_TAPROOT]
 META = {'level': 'proof', 'trusted_base': TRUSTED + ['stubs/step_env_sig.h: ECDSA / Schnorr verification, low-S test and FindAndDelete as oracles'],
  'assumptions': ASSUME_COMMON + [
    "claimed: the script-level half - which signature/key pairs are submitted for verification, in which order, under which encoding rules and flags, what is charged, and what is pushed for each oracle verdict",
